@@ -93,6 +93,8 @@ def tasks(tier):
         out += c01_l2.tasks(tier)
     except ImportError:
         pass
+    from . import c01_l3
+    out += c01_l3.tasks(tier)
     try:
         from . import c01_l5
         out += c01_l5.tasks(tier)
@@ -103,7 +105,7 @@ def tasks(tier):
 
 def prepare(tier):
     m = sym_mods()
-    m.td, m.fn, m.settings, m.plans, m.baselines, m.xc_evaluator, m.xc_evaluator2, m.numint
+    m.td, m.fn, m.settings, m.plans, m.baselines, m.xc_evaluator, m.xc_evaluator2, m.numint, m.lcao_nldf_generator
 
 
 META = dict(
